@@ -209,6 +209,28 @@ example :
     let r := run [.peek, .consume, .consume, .consume] (init [.tok ['a'], .comment c1, .comment c2, .tok ['b']])
     r.2 = [[], [c1, c2], []] ∧ r.1.rest = [] ∧ r.1.pending = [] := by decide
 
+/-! ## Comma separated lists on the queue (`parse_comma_separated_list_with_end_token_with_start`)
+
+History: until the /repo fix "comments before a trailing comma ... were dropped" (finding C09-F7) the
+comments consumed with a trailing comma were discarded; the fixed code puts them back in front of the
+pending ones (`pushBack`), which is what the model mirrors. -/
+
+theorem pushBack_conserves (cs : List Comment) (st : State) :
+    remaining (pushBack cs st) = cs ++ remaining st := pushBack_remaining cs st
+
+/-- **A comma separated list conserves comments**, for every element count, with or without a
+trailing comma and at end of input: the comments handed to the elements, then those handed to the
+closing token, then what is still ahead, are exactly the comments that were ahead, in order. -/
+theorem list_production_conserves (endTok : Str) (fuel : Nat) (st : State) :
+    elemComments (parseList endTok fuel st [] []).2.1 ++ (parseList endTok fuel st [] []).2.2 ++
+        remaining (parseList endTok fuel st [] []).1 = remaining st := by
+  simpa [elemComments] using parseList_conserves endTok fuel st [] []
+
+example :
+    let c : Comment := ⟨.block, ['c']⟩
+    (parseList ['>'] 5 (init [.tok ['A'], .tok [','], .tok ['B'], .comment c, .tok [','], .tok ['>']]) [] []).2 =
+      ([(['A'], []), (['B'], [])], [c]) := by decide
+
 /-! ## Prepending comments to an already built node
 (`mod_associated_comments_with_additional_preceding_comments`, source_parser.rs:2181-2196)
 
